@@ -14,7 +14,7 @@ import numpy as np
 
 from sim import boot
 from sim.util import SimAbort, cjson, dig, tt_full
-from sim.world import gen, make_tt
+from sim.world import gen, make_tt, poison_heap
 
 teneva = boot.boot()
 
@@ -637,6 +637,10 @@ def execute_adversarial(sc):
     seed, sg = make_seed(sc, stats)
     h = []
     runs = 1
+    if (sc['pseed'] >> 3) % 2 == 0:
+        # fault: whatever uninitialised memory the samplers allocate holds an adversarial pattern (indices far outside the tensor)
+        poison_heap(0x5A)
+        stats['fault.uninitialised_memory_poisoned'] = 1
     try:
         if fn == 'sample':
             Y = build_tensor(sc)
